@@ -5,9 +5,12 @@ calls).  Only public attributes are read.  All numbers are strings: TLC integers
 bit and JSON readers mangle large values.
 """
 import math
+import os
 import sys
 
-sys.path.insert(0, "/repo")
+# The library under test is /repo's working tree.  VERIF_REPO overrides it only for running the checks against a
+# seeded change applied to a scratch worktree (harness/seeds.py); registered checks never set it.
+sys.path.insert(0, os.environ.get("VERIF_REPO", "/repo"))
 
 KINDS = ["PL", "BTF", "BTP", "TMF", "TMP"]
 
